@@ -39,7 +39,11 @@ prop(
          "replaced/reduced, in the same history.",
     level_text="Generated-input search (rapid, fixed seeds) over git histories and reference graphs against a reference computed "
                "from the generator's trees. Says reports and reference agreed on N generated histories; no proof of absence.",
-    level_note="Dependants are derived from the expression text with prometheus/promql/parser (Inspect over VectorSelectors), not with "
+    level_note="Branch names are drawn per case (feature: feature, fix/main, user/x/main, main2, xmain, release/1.0, fix/master, "
+               "topic/feature; base: main, master; base given by --base-branch, by ci{baseBranch} or as origin/<base> with a "
+               "remote-tracking ref); the feature branch is never the base branch, and every case whose feature branch ends in "
+               "/<base> goes through the real binary (whether `pint ci` runs at all is decided from the names in cmd/pint). "
+               "Dependants are derived from the expression text with prometheus/promql/parser (Inspect over VectorSelectors), not with "
                "pint's own expression tree. Regex alertname matchers are not generated (the statement speaks of selecting 'with its "
                "alertname'; whether alertname=~\"A|B\" counts is not determined). The order of the listed dependants is not compared.",
     assumptions=["git 2.39 reports a byte-identical delete+create in one commit as R100",
